@@ -14,7 +14,7 @@ def main():
             fn()
         except anchors.AnchorError as e:
             print("anchor translator failed for %s: %s" % (name, e))
-    ok, out = vlib.coq_make(timeout=7200)
+    ok, out = vlib.coq_make(timeout=7200, per_file_timeout=3000)
     print("\n".join(out.splitlines()[-15:]))
     if not ok:
         print("coq build FAILED")
